@@ -613,8 +613,9 @@ func init() {
 			{name: "enumerated", quick: 4, thorough: 120, enumKinds: 6, enumPos: 1, enumBases: 120}},
 		rule:    "each evaluation is one simulated transfer (protocol 3 or 4, T in {2,5,20} s) paused 1-3 times at tape-chosen messages by Ctrl-C and continued through the real prompt after a think time of 0.02T..3T; non-trivial = at least one pause/continue cycle completed and the outcome rules (short pause => success with identical files; long pause => success or error, never a hang or a wrong file) and the no-data-while-paused monitor were evaluated; distinct = distinct (configuration + pause band + cycles, schedule-trace hash, tape hash)"})
 	reg(&propDef{id: "C03", level: "exploration", crashIsViol: true,
-		batches: []batch{{name: "buffer", quick: 3000, thorough: 120000}},
-		rule:    "each evaluation drives a real trzszBuffer with a producer task (addBuffer in a chosen segmentation, optional 1 ms pauses on the fake clock) and a consumer task issuing a tape-chosen sequence of strict line reads, junk-tolerant line reads and sized binary reads (or clean Windows-framed reads), under seeded schedules; streams of up to 12 bytes over {a,b,#,:,9,LF,CR,Ctrl-C} are run under ALL 2^(n-1) segmentations inside the same evaluation, longer streams (20-620 bytes, structured or random) under four random segmentations of increasing density; oracle: a 40-line reference parser applied to the concatenated stream (same values, same order, nothing lost/duplicated/merged, Ctrl-C interrupts) and promptness (after a pause during which the world went quiet, every read whose answer was complete has returned); non-trivial = at least one complete answer compared; distinct = distinct (class, schedule-trace hash, tape hash)"})
+		batches: []batch{{name: "buffer", quick: 3000, thorough: 120000},
+			{name: "pumps", params: map[string]string{"pumps": "1"}, quick: 500, thorough: 15000}},
+		rule:    "batch pumps: whole fault-free transfers (no tunnel: every protocol byte passes the terminal-side pumps of both ends) over links that cut nearly every write into 1-10 pieces with a bias to lone first bytes; oracle: success and identical files, as without any cutting. Batch buffer: each evaluation drives a real trzszBuffer with a producer task (addBuffer in a chosen segmentation, optional 1 ms pauses on the fake clock) and a consumer task issuing a tape-chosen sequence of strict line reads, junk-tolerant line reads and sized binary reads (or clean Windows-framed reads), under seeded schedules; streams of up to 12 bytes over {a,b,#,:,9,LF,CR,Ctrl-C} are run under ALL 2^(n-1) segmentations inside the same evaluation, longer streams (20-620 bytes, structured or random) under four random segmentations of increasing density; oracle: a 40-line reference parser applied to the concatenated stream (same values, same order, nothing lost/duplicated/merged, Ctrl-C interrupts) and promptness (after a pause during which the world went quiet, every read whose answer was complete has returned); non-trivial = at least one complete answer compared; distinct = distinct (class, schedule-trace hash, tape hash)"})
 	reg(&propDef{id: "C20", level: "exploration", crashIsViol: true,
 		batches: []batch{{name: "progress", quick: 4000, thorough: 150000},
 			{name: "system", params: map[string]string{"system": "1"}, quick: 600, thorough: 20000}},
